@@ -100,6 +100,11 @@ func genRec(t *rapid.T, shape string) Rec {
 		o.Coord = rapid.Float64Range(-1e6, 1e6)
 	}
 	r.G = vkit.GenGJ(t, o)
+	if shape == "Bounds" && rapid.IntRange(0, 19).Draw(t, "emptybox") == 7 {
+		// a box without any point (geom.NewBounds()): whatever it is written as, the file has to stay readable and the
+		// four (infinite) corners come back as they are
+		r.G = vkit.GJ{T: "Bounds", Pts: []vkit.P2{vkit.MkP(math.Inf(1), math.Inf(1)), vkit.MkP(math.Inf(-1), math.Inf(-1))}}
+	}
 	if shape == "Polygon" {
 		// closed and unclosed spellings
 		for i, ring := range r.G.Rings {
